@@ -198,6 +198,12 @@ func (r *decRunner) one(srcB, dictB []byte, dstLen int, layout string, fill func
 		src, dst, dict = r.gs.place(len(srcB)), r.gd.place(dstLen), r.gc.place(len(dictB))
 	} else if layout == "guardcap" {
 		src, dst, dict = r.gs.placeCap(len(srcB)), r.gd.placeCap(dstLen), r.gc.placeCap(len(dictB))
+	} else if layout == "nil" {
+		// a destination of length 0 given as nil (and a nil dictionary when it is empty)
+		src, dst, dict = r.as.slot(len(srcB), 0), nil, r.ac.slot(len(dictB), 0)
+		if len(dictB) == 0 {
+			dict = nil
+		}
 	} else {
 		src, dst, dict = r.as.slot(len(srcB), 7), r.ad.slot(dstLen, 64+dstLen%5), r.ac.slot(len(dictB), 3)
 	}
@@ -259,7 +265,11 @@ func blkRun(args []string) error {
 		var first decObs
 		stable, safe := true, true
 		k := 0
-		for _, layout := range []string{"canary", "guard", "guardcap"} {
+		layouts := []string{"canary", "guard", "guardcap"}
+		if c.DstLen == 0 {
+			layouts = append(layouts, "nil")
+		}
+		for _, layout := range layouts {
 			for _, f := range fills {
 				o := r.one(src, dict, c.DstLen, layout, f)
 				if k == 0 {
